@@ -71,6 +71,20 @@ SHORT = {
     "multi_aug_attr": "class O:\n    a = 1\n    b = [1]\no = O()\no.a += 1\no.a -= 2\no.b += [2]\no.b[0] += 5\no.b[1] *= 2\nprint(o.a, o.b)\n",
     "sibling_classes": "class A:\n    x = 1\nclass B:\n    x = 2\nclass C(A, B):\n    y = 3\nclass D(C):\n    pass\nprint(D.x, D.y)\n",
     "sibling_loops": "for i in range(2):\n    if i:\n        break\nfor j in range(2):\n    if j:\n        break\nk = 0\nwhile k < 2:\n    k += 1\n    if k:\n        break\nwhile k < 4:\n    k += 1\n    if k == 3:\n        continue\nprint(i, j, k)\n",
+    "comp_tuple_targets": "pairs = [(1, 2), (3, 4)]\nd = {k: v for k, v in pairs}\ns = [(a, b) for a, b in pairs if a]\ng = sum(x * y for (x, y) in pairs)\nprint(d, s, g)\n",
+    "comp_reads_captured": (
+        "def f(k, v, a):\n    b = a\n    def g():\n        return [(p, q, k, v, a, b) for p, q in [(1, 2)]]\n    return g\n"
+        "class C:\n    k = 1\n    x = 2\n    w = [(m, n) for m, n in [(k, x)]]\n    def meth(self, y):\n        return {i: (j, y, self.k) for i, j in [(1, 2)]}\n"
+        "print(f(1, 2, 3)(), C.w, C().meth(5))\n"
+    ),
+    "shared_names_roles": (
+        "k = 1\nv = 2\ndef x(a, b, y):\n    def inner(p):\n        nonlocal a\n        a = [k for k in (b, y)]\n        return (a, p, v)\n    return inner\n"
+        "class a:\n    b = k\n    def p(self, q=v):\n        return [(a, b) for a, b in [(q, k)]]\nprint(x(1, 2, 3)(4), a().p())\n"
+    ),
+    "fstring_nested_quotes": (
+        "w = 'x'\nq1 = f\'\'\'{len('a\"b')} {\"it's\"!r} {w + '\"'}\'\'\'\nq2 = f\"{'say \\'hi\\''} {w!a}\"\nprint(q1, q2)\n"
+    ),
+    "plain_quotes": "s1 = 'say \"hi\"'\ns2 = \"it's\"\ns3 = 'both \\' and \"'\nd = {'k\"': \"v'\"}\nprint(s1, s2, s3, d)\n",
     "global_decl": "g = 0\ndef f():\n    global g\n    g += 1\n    return g\nf()\nprint(g)\n",
     # --- classes -------------------------------------------------------------------
     "class_super": (
@@ -187,10 +201,33 @@ class ProgGen:
         if c < 0.5:
             return "(%s if %s else %s)" % (self.expr(names, depth + 1), self.expr(names, depth + 1), self.atom(names))
         if c < 0.6:
-            v = self.fresh("cv")
-            return "[%s for %s in range(%d) if %s]" % (self.expr(names + [v], depth + 1), v, r.randint(0, 3), self.atom(names + [v]))
+            # comprehension targets come from the vocabulary shared by all roles and all programs
+            # (a name that is a comprehension target here is a captured variable, a class member or
+            # a global elsewhere), single or tuple
+            form = r.random()
+            if form < 0.35:
+                v = self.fresh("cv")
+                return "[%s for %s in range(%d) if %s]" % (self.expr(names + [v], depth + 1), v, r.randint(0, 3), self.atom(names + [v]))
+            vocab = _PARAMS + _LOCALS + _GLOBAL_NAMES + ["k", "v"]
+            if form < 0.6:
+                v = r.choice(vocab)
+                return "[%s for %s in range(%d)]" % (self.expr(names + [v], depth + 1), v, r.randint(0, 3))
+            a, b = r.sample(vocab, 2)
+            inner = self.expr(names + [a, b], depth + 1)
+            reads = [n for n in names if n not in (a, b)]
+            extra = (", " + ", ".join(r.sample(reads, min(len(reads), 2)))) if reads and r.random() < 0.7 else ""
+            kind = r.choice(["list", "dict", "set", "gen"])
+            src_it = "[(%s, %s)]" % (self.atom(names), self.atom(names))
+            if kind == "dict":
+                return "{%s: (%s%s) for %s, %s in %s}" % (a, inner, extra, a, b, src_it)
+            if kind == "set":
+                return "{(%s%s) for (%s, %s) in %s}" % (a, extra, a, b, src_it)
+            if kind == "gen":
+                return "list((%s, %s%s) for [%s, %s] in %s)" % (a, b, extra, a, b, src_it)
+            return "[(%s%s) for %s, %s in %s if %s]" % (inner, extra, a, b, src_it, a)
         if c < 0.68:
-            return "(lambda %s: %s)(%s)" % ("lx", self.expr(names + ["lx"], depth + 1), self.atom(names))
+            lp = r.choice(["lx", "k", "v"] + _PARAMS[:2])
+            return "(lambda %s: %s)(%s)" % (lp, self.expr(names + [lp], depth + 1), self.atom(names))
         if c < 0.76:
             return "f\"{%s!r:>4}{{x}}\"" % self.atom(names)
         if c < 0.84:
@@ -371,3 +408,32 @@ def gen_program(seed: int) -> str:
             continue
         return src
     return "ga = %d\nprint(ga)\n" % (seed % 97)
+
+
+def variant_of(src: str, rng: random.Random) -> str:
+    """A near-duplicate of a program: same length (one digit or one lower-case letter inside a
+    string/number changed), or one statement appended, or a comment line prepended (every line
+    number shifts).  Pairs (p, variant) in one history defeat memo tables keyed by length, prefix,
+    hash of a prefix or (lineno, col, name).  Verified to compile; falls back to the original."""
+    kind = rng.choice(["digit", "digit", "append", "prepend", "append_use"])
+    cand = src
+    if kind == "digit":
+        idx = [i for i, ch in enumerate(src) if ch.isdigit() and (i == 0 or not (src[i - 1].isalpha() or src[i - 1] == "_"))]
+        if idx:
+            i = rng.choice(idx)
+            new = rng.choice([d for d in "123456789" if d != src[i]])
+            cand = src[:i] + new + src[i + 1:]
+    elif kind == "append":
+        cand = src + ("" if src.endswith("\n") or not src else "\n") + "zz_tail = %d\n" % rng.randint(0, 9)
+    elif kind == "append_use":
+        cand = src + ("" if src.endswith("\n") or not src else "\n") + "print('tail', %d)\n" % rng.randint(0, 9)
+    else:
+        cand = "# %s\n" % ("x" * rng.randint(0, 5)) + src
+    try:
+        with warnings.catch_warnings():
+            warnings.simplefilter("ignore")
+            compile(cand, "<variant>", "exec")
+            symtable.symtable(cand, "<variant>", "exec")
+    except (SyntaxError, ValueError, RecursionError):
+        return src
+    return cand
